@@ -180,6 +180,27 @@ type zzPeer struct {
 	cache    *dtlsflight.Cache
 	suite    *zzSuite
 	conn     zzConn
+	wire     []*zzWire // every handshake message this endpoint has put on the wire
+}
+
+// zzWire is one handshake message as sent: cache metadata plus whether the peer has received it.
+type zzWire struct {
+	raw       []byte
+	epoch     uint16
+	seq       uint16
+	typ       handshake.Type
+	delivered bool
+}
+
+// zzRetransmit delivers every message of p that the peer has not received yet (the retransmission timer of
+// handshakeFSM12 resends the prepared flight unchanged).
+func zzRetransmit(p, peer *zzPeer) {
+	for _, w := range p.wire {
+		if !w.delivered {
+			peer.cache.Push(w.raw, w.epoch, w.seq, w.typ, p.isClient)
+			w.delivered = true
+		}
+	}
 }
 
 func zzNewPeer(isClient bool) *zzPeer {
@@ -215,8 +236,11 @@ func zzSend(p, peer *zzPeer, f Flight, drop []bool) ([]*handshake.Handshake, *al
 		}
 		epoch := pkt.Record.Header.Epoch
 		p.cache.Push(raw, epoch, h.Header.MessageSequence, h.Header.Type, p.isClient)
+		w := &zzWire{raw: raw, epoch: epoch, seq: h.Header.MessageSequence, typ: h.Header.Type}
+		p.wire = append(p.wire, w)
 		if len(drop) <= len(msgs) || !drop[len(msgs)] {
 			peer.cache.Push(raw, epoch, h.Header.MessageSequence, h.Header.Type, p.isClient)
+			w.delivered = true
 		}
 		msgs = append(msgs, h)
 	}
